@@ -7,7 +7,13 @@ The log is in dispatch order.  Offers are explicit (`ev offer`); dispatches of
 `ChannelUnbusyNotif` are internal to des and are reconstructed: an unbusy that starts queued
 messages shows as `ev deq` lines (the channel probe fired outside a `send`), one that finds the
 buffer empty is placed where event order forces it (before any later event; at a tie according
-to whether the implementation was still busy).  Both tie orders are scripts of the model.
+to whether the implementation was still busy).  Arrivals (`ev rx`) are replayed as `deliver`
+steps: the model world contains the kernel's tie rule for the channel's own events, so the order
+of unbusy dispatches and deliveries is checked against it.  Independently of the model, with zero
+jitter every arrival must be the oldest undelivered message (`tie-overtake` otherwise).
+If the implementation dispatched channel events in an order the kernel model excludes, the replay
+goes on with the implementation's order (to look for a concrete violation of the property) and the
+case fails as `diverge` at its end.
 -/
 import Desverif.Model.ChanRun
 import Driver.Common
@@ -93,17 +99,33 @@ structure Stats where
   tieIdle : Nat := 0        -- … dispatched after it
   zeroTx : Nat := 0
   delivered : Nat := 0
+  tieDeliver : Nat := 0     -- arrival while another exit event with the same timestamp is pending
+  tieExitUnbusy : Nat := 0  -- arrival at the very instant of the pending unbusy notification
 
 structure St where
   wm : World Chan.State
   ws : World ChanSrv.Srv
   delivered : List Nat := []      -- ids received so far
+  soft : Option String := none    -- first tolerated disagreement with the kernel model
   st : Stats := {}
 
 def ids (l : List (Nat × Msg)) : List Nat := l.map (·.2.id)
 
+/-- put the pending unbusy notification first in scheduling order (the implementation dispatched
+    it before an exit event with the same key) -/
+def unbusyFirst (w : World σ) : World σ :=
+  match minTime w.pend with
+  | some u => { w with kq := KEv.unbusy u :: w.kq.erase (KEv.unbusy u) }
+  | none => w
+
 /-- dispatch one pending unbusy in both worlds; returns the ids it started -/
-def doUnbusy (mt : Metrics) (s : St) : Except String (St × List Nat) :=
+def doUnbusy (mt : Metrics) (s0 : St) : Except String (St × List Nat) :=
+  let s : St :=
+    match step spec mt s0.ws .unbusy with
+    | .error .order =>
+      { s0 with ws := unbusyFirst s0.ws, wm := unbusyFirst s0.wm,
+                soft := s0.soft.orElse fun _ => some s!"kind=diverge clause=unbusy-before-exit detail=unbusy-at-{(minTime s0.ws.pend).getD 0}-dispatched-although-an-exit-event-scheduled-earlier-for-the-same-instant-is-pending" }
+    | _ => s0
   match step spec mt s.ws .unbusy, step model mt s.wm .unbusy with
   | .ok ws', .ok wm' =>
     let ns := ids (ws'.started.drop s.ws.started.length)
@@ -113,8 +135,26 @@ def doUnbusy (mt : Metrics) (s : St) : Except String (St × List Nat) :=
       let st := { s.st with unbusies := s.st.unbusies + 1, dequeued := s.st.dequeued + ns.length,
                             multiDrain := s.st.multiDrain + (if ns.length ≥ 2 then 1 else 0) }
       .ok ({ s with ws := ws', wm := wm', st := st }, ns)
+  | .error .order, _ => .error s!"kind=reject clause=unbusy-order detail=an-exit-event-due-earlier-is-still-undelivered pend={s.ws.pend} undelivered={(s.ws.exits.filter fun x => !(s.delivered.contains x.id)).map fun x => (x.time, x.id)}"
   | .error e, _ => .error s!"kind=reject clause=unbusy-step spec-error={repr e}"
   | _, .error e => .error s!"kind=diverge clause=unbusy-step model-error={repr e}"
+
+/-- the implementation delivered `ex`: replay it as a `deliver` step; if the kernel model would have
+    dispatched something else, follow the implementation and remember the disagreement -/
+def forceDeliver (ex : Exit) (w : World σ) : World σ :=
+  { w with clock := ex.time, kq := w.kq.erase (KEv.exit ex), delivered := w.delivered ++ [ex.id] }
+
+def doDeliver (mt : Metrics) (s : St) (ex : Exit) : St :=
+  match step spec mt s.ws .deliver, step model mt s.wm .deliver with
+  | .ok ws', .ok wm' =>
+    if ws'.delivered.getLast? == some ex.id && wm'.delivered.getLast? == some ex.id then
+      { s with ws := ws', wm := wm' }
+    else
+      { s with ws := forceDeliver ex s.ws, wm := forceDeliver ex s.wm,
+               soft := s.soft.orElse fun _ => some s!"kind=diverge clause=delivery-order impl-delivered={ex.id} kernel-model-next={(ws'.delivered.getLast?).getD 0} t={ex.time}" }
+  | _, _ =>
+    { s with ws := forceDeliver ex s.ws, wm := forceDeliver ex s.wm,
+             soft := s.soft.orElse fun _ => some s!"kind=diverge clause=delivery-order impl-delivered={ex.id} kernel-model-next=unbusy-or-none t={ex.time}" }
 
 /-- dispatch the unbusy notifications that event order forces before an event at time `t`
     (`tie`: also one due exactly at `t`).  The log showed no transmission start, so none may start. -/
@@ -252,6 +292,8 @@ def runCase (c : Case) : String := Id.run do
           dropBusy := st.dropBusy + (if fs == .droppedBusy then 1 else 0),
           dropFull := st.dropFull + (if fs == .droppedFull then 1 else 0),
           zeroTx := st.zeroTx + (if tx == 0 then 1 else 0) } }
+      | .error .order, _ =>
+        return bad i s!"kind=reject clause=lost-or-late detail=offer-at-{t}-while-an-earlier-channel-event-is-pending pend={s.ws.pend} undelivered={(s.ws.exits.filter fun x => !(s.delivered.contains x.id)).map fun x => (x.time, x.id)}"
       | .error er, _ => return bad i s!"kind=reject clause=offer-step spec-error={repr er} t={t}"
       | _, .error er => return bad i s!"kind=diverge clause=offer-step model-error={repr er} t={t}"
     | .deq t tag =>
@@ -305,7 +347,13 @@ def runCase (c : Case) : String := Id.run do
           | some x =>
             return bad i s!"kind=reject clause=tie-overtake tag={tag} overtakes={x.id} t={t} sched-first={x.sched} sched-second={ex.sched} lat={lat}"
           | none => pure ()
-        s := { s with delivered := s.delivered ++ [tag], st := { s.st with delivered := s.st.delivered + 1 } }
+        let tieD := undelivered.any (·.time == t)
+        let tieU := s.ws.pend.any (· == t)
+        s := doDeliver mt s ex
+        s := { s with delivered := s.delivered ++ [tag],
+                      st := { s.st with delivered := s.st.delivered + 1,
+                                        tieDeliver := s.st.tieDeliver + (if tieD then 1 else 0),
+                                        tieExitUnbusy := s.st.tieExitUnbusy + (if tieU then 1 else 0) } }
     | .fin t o err =>
       sawFin := true
       if err != 0 then return bad i s!"kind=reject clause=simulation-error err={err}"
@@ -324,9 +372,10 @@ def runCase (c : Case) : String := Id.run do
       if (spec.obs s.ws.chan).qlen != 0 then
         return bad i s!"kind=reject clause=queue-not-empty-at-end qlen={(spec.obs s.ws.chan).qlen}"
   if !sawFin then return bad i "kind=badcase detail=no-fin-line"
+  if let some m := s.soft then return bad i m
   let st := s.st
   let nt := (st.queued + st.dropBusy + st.dropFull > 0) && st.started + st.dequeued ≥ 2
-  return s!"ok {id} nt={if nt then 1 else 0} offers={st.offers} started={st.started} queued={st.queued} dropbusy={st.dropBusy} dropfull={st.dropFull} unbusies={st.unbusies} dequeued={st.dequeued} multidrain={st.multiDrain} tiebusy={st.tieBusy} tieidle={st.tieIdle} zerotx={st.zeroTx} delivered={st.delivered}"
+  return s!"ok {id} nt={if nt then 1 else 0} offers={st.offers} started={st.started} queued={st.queued} dropbusy={st.dropBusy} dropfull={st.dropFull} unbusies={st.unbusies} dequeued={st.dequeued} multidrain={st.multiDrain} tiebusy={st.tieBusy} tieidle={st.tieIdle} zerotx={st.zeroTx} delivered={st.delivered} tiedeliver={st.tieDeliver} tieexitunbusy={st.tieExitUnbusy}"
 
 def main (stdin : IO.FS.Stream) : IO Unit := do
   let cases ← readCases stdin
